@@ -179,7 +179,7 @@ fn bounds_opt() -> impl Strategy<Value = Option<(i16, i16)>> {
 fn bucket_kind_strategy(top: bool) -> BoxedStrategy<AggKind> {
     let range = (num_field(), prop::collection::vec(-8i16..=16, 1..5), prop::bool::weighted(0.15), any::<bool>(), any::<bool>(), prop::bool::weighted(0.2), prop::bool::weighted(0.25))
         .prop_map(|(field, cuts, half, open_lo, open_hi, keyed, custom_keys)| AggKind::Range { field, cuts, half, open_lo, open_hi, keyed, custom_keys });
-    let interval = prop_oneof![2 => Just(1u8), 2 => Just(2u8), 4 => Just(4u8), 1 => Just(6u8), 3 => Just(8u8), 2 => Just(10u8), 2 => Just(12u8), 2 => Just(20u8), 1 => Just(40u8)];
+    let interval = prop_oneof![2 => Just(1u8), 2 => Just(2u8), 4 => Just(4u8), 1 => Just(6u8), 3 => Just(8u8), 2 => Just(10u8), 2 => Just(12u8), 2 => Just(20u8), 1 => Just(40u8), 4 => 200u8..=204];
     let hist = (num_field(), interval, prop::option::weighted(0.35, 0u8..40), prop::option::weighted(0.4, 0u8..3), bounds_opt(), bounds_opt(), prop::bool::weighted(0.15))
         .prop_map(|(field, interval_q, offset_q, min_doc_count, hard, ext, keyed)| AggKind::Histogram { field, interval_q, offset_q, min_doc_count, hard, ext, keyed });
     let dunit = (1u16..40, 0u8..5);
@@ -770,13 +770,14 @@ impl Sub for Agg {
                     }
                     AggKind::Histogram { field, interval_q, offset_q, hard, ext, min_doc_count, .. } => {
                         bucket_fields.push(*field);
-                        let (i, o) = (q_interval(*interval_q), offset_q.map(|o| (o % (*interval_q).max(1)) as f64 / 4.0).unwrap_or(0.0));
+                        let (i, o) = (q_interval(*interval_q), q_offset(*interval_q, *offset_q));
                         if matching.iter().any(|d| nums(d, *field).iter().any(|v| ((v - o) / i).fract() == 0.0)) {
                             cx.label("value_on_bucket_boundary");
                         }
                         cx.label_if(hard.is_some(), "histogram_hard_bounds");
                         cx.label_if(ext.is_some() && min_doc_count.unwrap_or(0) == 0, "histogram_extended_bounds");
                         cx.label_if(offset_q.is_some(), "histogram_offset");
+                        cx.label_if(q_fractional(*interval_q), "histogram_non_dyadic_interval");
                     }
                     AggKind::DateHistogram { .. } => bucket_fields.push(Fld::D),
                     AggKind::Terms { field, size, segment_size, order, min_doc_count, missing, .. } => {
@@ -901,7 +902,7 @@ fn dup_with_subs_anywhere(aggs: &[AggNode], docs: &[&DocM], c: &Corpus) -> bool 
                 })
             }
             AggKind::Histogram { field, interval_q, offset_q, hard, ext, min_doc_count, .. } => {
-                let (i, o) = (q_interval(*interval_q), offset_q.map(|o| (o % (*interval_q).max(1)) as f64 / 4.0).unwrap_or(0.0));
+                let (i, o) = (q_interval(*interval_q), q_offset(*interval_q, *offset_q));
                 let (hard_b, _) = hist_bounds(&|x| bound_val(c, *field, x), *hard, *ext, *min_doc_count);
                 docs.iter().any(|d| {
                     let b: Vec<i64> = nums(d, *field).iter().filter(|v| hard_b.map_or(true, |h| **v >= h.0 && **v <= h.1)).map(|v| ((v - o) / i).floor() as i64).collect();
